@@ -345,7 +345,7 @@ def rule_trailer(check):
     sites = [s_ for s_ in sites if s_[0].def_path not in fmtargs.INLINED] or sites
     check.expect(len(sites) == 1, R, R + "/single-site", "-", "one trailer emission site", "%d trailer emission sites" % len(sites))
     js = jsast.JsFile(prog.js, "js/source-map/index.js")
-    js_start = js.const_string("SOURCE_MAP_INLINE_LINE_START")
+    js_start = js.marker_strings()[1]
     for f, n, pieces in sites:
         text = ""
         payload = pieces[-1][1] if pieces and pieces[-1][0] == "arg" and len(pieces) > 1 else None
@@ -549,8 +549,56 @@ def rule_resolve(check):
     regs = [x for v in regs for x in (v if isinstance(v, tuple) else (v,))]
     ok = any(isinstance(v, str) and v.endswith("DecodedMap::Regular") for v in regs) and not any(isinstance(v, str) and "DecodedMap::" in v and not v.endswith("DecodedMap::Regular") for v in regs)
     check.expect(ok, R, R + "/regular-only", hir.loc(e.rec), "only DecodedMap::Regular is used", "non-regular decoded maps are used")
-    url = [n for n in hir.calls_in(e.body, name="get")]
-    check.ok(R, R + "/url", hir.loc(e.rec), "url = text after the marker (C13 G8 shows the slice is in range)")
+    # the reference that is resolved to a file is the text after the marker, whole: cut, split or rewritten
+    # (`?v=..`, `#frag`, unescaping) it names another file - `c#.js.map` is a file name like any other
+    KEEP = {"trim", "trim_start", "trim_end", "get", "unwrap", "expect", "strip_prefix", "as_str", "as_ref", "to_string", "to_owned", "clone", "into", "from", "as_deref", "borrow", "deref", "index", "len", "new"}
+
+    def steps(fn_, x, depth=0, seen=None):
+        """names of the calls between the expression and the place it is derived from"""
+        seen = seen if seen is not None else set()
+        x = hir.peel(x)
+        if depth > 10 or id(x) in seen:
+            return set()
+        seen.add(id(x))
+        l_ = hir.local_of(x)
+        if l_:
+            b_ = fn_.bindings().get(l_[0])
+            if b_ and b_["origin"][0] in ("let", "match") and b_["origin"][1] is not None:
+                return steps(fn_, b_["origin"][1], depth + 1, seen)
+            return set()
+        if hir.is_call(x):
+            nm = hir.callee_name(x) or x.get("method")
+            g_ = prog.resolve_local(x)
+            out = set()
+            if g_ is not None and g_.body is not None and not g_.rec.get("gen"):
+                from ..prov import return_exprs as _re
+                for r_ in _re(g_.body):
+                    out |= steps(g_, r_, depth + 1, seen)
+            else:
+                out.add(nm)
+            a_ = hir.call_args(x)
+            if a_:
+                out |= steps(fn_, a_[0], depth + 1, seen)
+            return out
+        if x.get("k") in ("Field", "AddrOf", "Cast", "Index") or (x.get("k") == "Unary" and x.get("op") == "Deref"):
+            return ({"index"} if x.get("k") == "Index" else set()) | steps(fn_, x.get("x"), depth + 1, seen)
+        if x.get("k") in ("Match", "If", "BlockExpr"):
+            from ..prov import value_exprs as _vals
+            out = set()
+            for v_ in _vals(x):
+                if hir.peel(v_) is not x:
+                    out |= steps(fn_, v_, depth + 1, seen)
+            if x.get("k") == "Match":
+                out |= steps(fn_, x["scrut"], depth + 1, seen)
+            return out
+        return set()
+
+    pbs = [(g, n) for g in prog.flat(e) for n in hir.walk(g.body) if hir.is_call(n) and hir.callee_name(n) == "from" and "PathBuf" in (n.get("ty") or "")]
+    check.floor(R, "places where the reference becomes a path", len(pbs), 1)
+    for g, n in pbs:
+        st_ = steps(g, hir.call_args(n)[-1])
+        extra = sorted(str(x) for x in st_ - KEEP)
+        check.expect(not extra, R, R + "/url", hir.loc(n), "the path is the text after the marker, whole (%s)" % sorted(str(x) for x in st_), "the reference is edited before it is used as a path (%s): a map file whose name contains the cut / replaced characters is never found, although the file is there" % ", ".join(extra))
 
 
 def run(check):
